@@ -42,7 +42,7 @@ SHRINK_LISTS = ["msgs"]
 URL = "http://sim.test/mcp"
 STATUSES = [200, 200, 200, 202, 204, 308, 307, 400, 401, 404, 429, 500, 503]
 CTYPES = ["application/json", "application/json; charset=utf-8", "text/event-stream", "text/event-stream; charset=utf-8", "text/plain", None]
-BODIES = ["response", "response", "error_response", "batch", "notifs_then_response", "wrong_id", "empty", "truncated", "non_json", "non_utf8",
+BODIES = ["response", "response", "error_response", "batch", "notifs_then_response", "wrong_id", "empty", "truncated", "non_json", "non_utf8", "latin1_json", "utf16_odd",
           "unicode_response", "json_scalar", "json_null", "id_only_object", "empty_array"]
 EXCS = [None, None, None, None, None, "ConnectError", "ConnectTimeout", "ReadTimeout", "RemoteProtocolError", "ReadError"]
 
@@ -115,7 +115,7 @@ def systematic(tier: str):
     cells = []
     for status in [200, 202, 204, 308, 307, 400, 404, 500]:
         for ctype in ["application/json", "text/event-stream", "text/plain", None]:
-            for body in ["response", "error_response", "batch", "notifs_then_response", "wrong_id", "empty", "truncated", "non_json", "non_utf8",
+            for body in ["response", "error_response", "batch", "notifs_then_response", "wrong_id", "empty", "truncated", "non_json", "non_utf8", "latin1_json", "utf16_odd",
                          "json_scalar", "json_null", "id_only_object", "empty_array"]:
                 cells.append(dict(status=status, ctype=ctype, body=body))
     sse_variants = []
@@ -253,6 +253,11 @@ def _body_bytes(b, rid, k, is_sse):
         return b"<html><body>Bad gateway</body></html>"
     if body == "non_utf8":
         return b"\xff\xfe\x00{\x80\x81"
+    if body == "latin1_json":
+        # a perfectly good answer, encoded in the wrong charset (0xE9 is no UTF-8)
+        return json.dumps({"jsonrpc": "2.0", "id": rid, "result": {"marker": f"m{k}", "text": "caf\u00e9"}}, ensure_ascii=False).encode("latin-1")
+    if body == "utf16_odd":
+        return json.dumps({"jsonrpc": "2.0", "id": rid, "result": {"marker": f"m{k}"}}).encode("utf-16-le")[:-1]
     payload = {"json_scalar": b'"ok"', "json_null": b"null", "id_only_object": json.dumps({"jsonrpc": "2.0", "id": rid}).encode(), "empty_array": b"[]"}[body]
     if is_sse:
         return b"data: " + payload + b"\n\n"
@@ -309,7 +314,11 @@ def expected_for(b, rid, notif, k, timeout):
     try:
         text = raw.decode("utf-8")
     except UnicodeDecodeError:
-        return terminal
+        if is_json or is_sse:
+            return terminal
+        # neither JSON nor SSE by its content type and not UTF-8 either: treating it as malformed is fine, and so is reading it the way an
+        # HTTP client reads text of unknown charset (undecodable bytes replaced) - the sentence leaves this cell open
+        text = raw.decode("utf-8", "replace")
     if is_json:
         try:
             o = json.loads(text)
@@ -617,7 +626,7 @@ def _klass(b, notif, rid, k, timeout):
     if st_ == 204 or b["body"] == "empty":
         return "empty-body"
     ct = b["ctype"] or ""
-    junk = b["body"] in ("truncated", "non_json", "non_utf8", "json_scalar", "json_null", "id_only_object", "empty_array")
+    junk = b["body"] in ("truncated", "non_json", "non_utf8", "latin1_json", "utf16_odd", "json_scalar", "json_null", "id_only_object", "empty_array")
     if "text/event-stream" in ct:
         return "malformed-sse-body" if junk else "sse-body"
     if "application/json" in ct:
